@@ -13,5 +13,6 @@ def run(repo, res, tier):
     effects.rule_estate(repo, res, floor=2)
     effects.rule_alias(repo, res)
     effects.rule_shared_class_state(repo, res)
+    effects.rule_memo(repo, res)
     effects.rule_globals(repo, res)
     effects.rule_one_shot_iterators(repo, res)
